@@ -7,7 +7,7 @@ EXTENDS Integers, Sequences, FiniteSets, TLC, Json, IOUtils, SequencesExt
 Full == IOEnv.VF_FULL = "1"
 Bases == {<<10, 77, 3, 0>>, <<10, 77, 3, 77>>, <<10, 77, 255, 250>>, <<192, 168, 0, 129>>, <<0, 0, 0, 0>>, <<255, 255, 255, 255>>}
 Lens == IF Full THEN 22..32 ELSE {24, 26, 27, 29, 30, 31, 32}
-Nets == {[ip |-> b, len |-> n] : b \in Bases, n \in Lens}
+Nets == {[ip |-> b, len |-> n] : b \in Bases, n \in Lens} \cup {[ip |-> <<10, 77, 3, 0>>, len |-> 22]}   \* one net with far more addresses than any buffer
 R(a, b) == [lo |-> a, hi |-> b]
 RangeLists == { <<>>, <<R(80, 80)>>, <<R(80, 82)>>, <<R(80, 82), R(81, 81)>>, <<R(80, 81), R(82, 83)>>, <<R(81, 81), R(81, 81)>>,
                 <<R(1, 1), R(65535, 65535)>>, <<R(65534, 65535), R(65535, 65535), R(1, 2)>>, <<R(443, 443), R(80, 80), R(22, 25)>> }
